@@ -342,8 +342,22 @@ func setBigFloatFromBigFloat(value *big.Float, dst reflect.Value) {
 	dst.Set(reflect.ValueOf(*value))
 }
 
+// DFloat.BigFloat() always rounds to 63 bits, which is not enough for a whole
+// number such as 9007199254740993e5. Those go through the big decimal
+// conversion, which sizes the precision to the number of integer digits.
+func decimalFloatToBigFloat(value compact_float.DFloat, dstType reflect.Type) *big.Float {
+	if value.IsSpecial() || value.Exponent <= 0 || value.Exponent > conversions.MaxExactBigFloatBase10Exponent {
+		return value.BigFloat()
+	}
+	bf, err := conversions.BigDecimalFloatToBigFloat(value.APD())
+	if err != nil {
+		PanicErrorConverting(value, dstType, err)
+	}
+	return bf
+}
+
 func setBigFloatFromDecimalFloat(value compact_float.DFloat, dst reflect.Value) {
-	bf := value.BigFloat()
+	bf := decimalFloatToBigFloat(value, dst.Type())
 	dst.Set(reflect.ValueOf(*bf))
 }
 
@@ -384,7 +398,7 @@ func setPBigFloatFromBigFloat(value *big.Float, dst reflect.Value) {
 }
 
 func setPBigFloatFromDecimalFloat(value compact_float.DFloat, dst reflect.Value) {
-	dst.Set(reflect.ValueOf(value.BigFloat()))
+	dst.Set(reflect.ValueOf(decimalFloatToBigFloat(value, dst.Type())))
 }
 
 func setPBigFloatFromBigDecimalFloat(value *apd.Decimal, dst reflect.Value) {
